@@ -169,12 +169,15 @@ def configs(tier):
     add(family="E", N=3, M=0, side="long", reward_kind="RewardPnL")
     add(family="E", N=3, M=0, side="long", reward_kind="RewardLogReturn")
     if tier == "thorough":
-        for rk in ("RewardPnL", "RewardLogReturn", "LogReturn"):
+        # measured: grids of 4 with a log reward or an extra quote cost > 90 minutes (and leave
+        # nonlinear feasibility queries undecided); the thorough tier covers every reward class
+        # and both sides on grids of 3, and the P&L reward on a grid of 4
+        for rk in ("RewardLogReturn", "LogReturn", "RewardPnL"):
             for side in ("long", "short"):
-                add(family="E", N=4, M=0, side=side, reward_kind=rk)
+                add(family="E", N=3, M=0, side=side, reward_kind=rk)
         for side in ("long", "short"):
-            add(family="E", N=4, M=1, side=side, latency="sym", free_kinds=["quote"],
-                reward_kind="RewardSimpleReturn")
+            add(family="E", N=4, M=0, side=side, reward_kind="RewardPnL")
+            add(family="E", N=3, M=1, side=side, latency="sym", free_kinds=["quote"], reward_kind="RewardPnL")
     return out
 
 
@@ -186,7 +189,8 @@ ASSUMPTIONS = _A + ["episode configs: one spot contract bought with weight 2 (le
                     "builtin float() shadowed in tradingenv.rewards (identity on proxies)"]
 BOUNDS = {"quick": "valuation/rebalance from every INV shape (one contract); episodes over grids of 3-4 timesteps, "
                    "optionally one extra quote within/after the latency window, rewards SimpleReturn/PnL/LogReturn",
-          "thorough": "all four reward classes, both sides, grid of 4 with an extra quote"}
+          "thorough": "all four reward classes and both sides on grids of 3; P&L reward on a grid of 4 and with an extra "
+                      "quote"}
 OUTSIDE = ["more than one contract in the episode", "grids > 4"]
 STUBS = ["builtin float() shadowed in tradingenv.rewards", "np.log uninterpreted (LogReturn configs)"]
 DEADLINE_S = {"quick": 900, "thorough": 5400}
